@@ -745,21 +745,21 @@ def run(ctx):
     ]
     # ---------------- implementation side
     tasks = []
-    for j in range(12 if quick else 60):
-        tasks.append((("toy",), rng.randrange(1 << 30), 20 if quick else 60, True))
-    for j in range(42 if quick else 400):
+    for j in range(10 if quick else 40):
+        tasks.append((("toy",), rng.randrange(1 << 30), 16 if quick else 50, j % (2 if quick else 3) == 0))
+    for j in range(35 if quick else 300):
         opts = GEN_OPTS[j % len(GEN_OPTS)]
-        tasks.append((("gen", rng.randrange(1 << 30), opts), rng.randrange(1 << 30), 7 if quick else 14, j % 2 == 0))
+        tasks.append((("gen", rng.randrange(1 << 30), opts), rng.randrange(1 << 30), 7 if quick else 12, j % (2 if quick else 4) == 0))
     for n in genes.shipped_names():
         if n == "dpyd" and quick:
             continue
         big = n in ("cyp2d6", "cyp2a6", "dpyd", "ryr1")
-        for j in range(1 if quick else (4 if not big else 8)):
-            tasks.append((("shipped", n), rng.randrange(1 << 30), (3 if not big else 2) if quick else (12 if not big else 6), not big and j == 0))
+        for j in range(1 if quick else (3 if not big else 6)):
+            tasks.append((("shipped", n), rng.randrange(1 << 30), (3 if not big else 2) if quick else (10 if not big else 5), not big and j == 0))
     if quick:
         tasks += [(("shipped", "cyp2d6"), rng.randrange(1 << 30), 2, False), (("shipped", "cyp2a6"), rng.randrange(1 << 30), 2, True)]
     rtasks = []
-    for j in range(8 if quick else 80):
+    for j in range(8 if quick else 60):
         if j % 4 == 0:
             s = rng.choice([("+", "-"), ("-", "+")])
             rtasks.append((("toys", s[0], s[1], rng.randrange(40)), rng.randrange(1 << 30), 2 if quick else 4))
